@@ -719,7 +719,7 @@ func init() {
 		Run:            c08Run,
 		Replay:         c08Replay,
 		QuickBudget:    170 * time.Second,
-		ThoroughBudget: 15 * time.Minute,
+		ThoroughBudget: 8 * time.Minute,
 		HangLimit:      8 * time.Second,
 		HeapLimit:      1 << 30,
 	})
